@@ -495,6 +495,106 @@ def _subset(reps, k):
     return sorted(set(reps[int(round(i * step))] for i in range(k)))
 
 
+# ------------------------------------------------------------------ torchclifford: sample / density_matrix
+def _torch_pool19(N, seed):
+    if N == 3:
+        from . import c06
+        if 402 not in c06._N3:
+            c06._N3[402] = c06._n3_states(402, 0)
+        return c06._N3[402][seed % 9::9]
+    T = stab.tableaux(N)
+    return [T[i] for i in (range(len(T)) if N == 1 else stab.representatives(N, seed))]
+
+
+def fn_torch19(items):
+    """item = [seed, N, i]: torchclifford state built from the i-th pool tableau.  density_matrix: exactly 2^(N-r) terms,
+    pairwise different strings, each of weight 2^-N, dense sum = rho.  sample(L) for L = 1, 2 under EVERY scripted
+    torch.randint stream ((N-r)*L coins): every sampled operator has a Hermitian sign and Tr(rho P) = +1; for L = 1 the
+    2^(N-r) streams give 2^(N-r) different group elements (uniform); the state is unchanged."""
+    n = nt = 0
+    viol = []
+    m = lib.torch_mods()
+    torch = m['torch']
+    for seed, N, i in items:
+        item = [seed, N, i]
+        gs0, ps0, r0 = _torch_pool19(N, seed)[i]
+        rho_m = stab.rho_of(gs0, ps0, r0)
+        k = N - r0
+        desc = stab.describe(gs0, ps0, r0)
+        st = lib.tST(gs0, ps0, r0)
+        key0 = (lib.t2n(st.gs).tobytes(), lib.t2n(st.ps).tobytes(), int(st.r))
+        # density_matrix
+        try:
+            dm = st.density_matrix
+            dg, dp = lib.t2n(dm.gs).reshape(-1, 2 * N), np.atleast_1d(lib.t2n(dm.ps))
+            dc = np.atleast_1d(dm.cs.detach().numpy())
+            n += 1
+            nt += int(k > 0)
+            if dg.shape[0] != 2 ** k or len({row.tobytes() for row in dg}) != dg.shape[0]:
+                viol.append(V('C19/torch/density_matrix/terms', item, 'torch density_matrix of %s has %d terms (%d distinct strings), the group has %d elements' % (
+                    desc, dg.shape[0], len({row.tobytes() for row in dg}), 2 ** k)))
+            elif any(abs(abs(complex(c)) - 2.0 ** -N) > 1e-6 for c in dc):
+                viol.append(V('C19/torch/density_matrix/weight', item, 'torch density_matrix of %s: a term does not have weight 2^-%d' % (desc, N)))
+            else:
+                tot = sum(complex(c) * ref.mat(g, int(p) % 4) for g, p, c in zip(dg, dp, dc))
+                if not np.allclose(tot, rho_m, atol=1e-6):
+                    viol.append(V('C19/torch/density_matrix/value', item, 'torch density_matrix of %s does not sum to rho (a sign or an element is wrong)' % (desc,)))
+        except Exception as e:
+            viol.append(V('C19/torch/density_matrix/raises-%s' % type(e).__name__, item, 'torch density_matrix of %s raised %s' % (desc, e)))
+        # sample under every coin stream
+        for L in (1, 2):
+            if k * L > 6:
+                continue
+            seen = {}
+            for coins in itertools.product((0, 1), repeat=k * L):
+                calls = []
+
+                def fake(*args, **kw):
+                    if len(args) != 3 or args[0] != 0 or args[1] != 2:
+                        raise Harness('unexpected torch.randint call %r' % (args,))
+                    size = tuple(int(x) for x in args[2])
+                    cnt = int(np.prod(size)) if size else 1
+                    vals = [coins[j] if j < len(coins) else 1 for j in range(len(calls), len(calls) + cnt)]
+                    calls.extend(vals)
+                    return torch.tensor(vals, dtype=torch.int64).reshape(size)
+                orig = torch.randint
+                torch.randint = fake
+                try:
+                    out = st.sample(L)
+                except Harness:
+                    raise
+                except Exception as e:
+                    viol.append(V('C19/torch/sample/raises-%s' % type(e).__name__, item, 'torch sample(%d) on %s raised %s' % (L, desc, e)))
+                    break
+                finally:
+                    torch.randint = orig
+                n += 1
+                nt += int(k > 0)
+                og, op = lib.t2n(out.gs).reshape(-1, 2 * N), np.atleast_1d(lib.t2n(out.ps))
+                if og.shape[0] != L or len(calls) != k * L:
+                    viol.append(V('C19/torch/sample/shape-or-coins', item, 'torch sample(%d) on %s: %d operators, %d coins drawn (expected %d, %d)' % (
+                        L, desc, og.shape[0], len(calls), L, k * L)))
+                    break
+                okk = True
+                for g, p_ in zip(og, op):
+                    if int(p_) != p_ or int(p_) % 4 not in (0, 2) or abs(np.trace(rho_m @ ref.mat(g, int(p_) % 4)).real - 1) > 1e-9:
+                        viol.append(V('C19/torch/sample/not-a-stabilizer', item, 'torch sample(%d) on %s under coins %s returned %s: not an element of the stabilizer group with expectation +1' % (
+                            L, desc, list(coins), ref.g_to_str(g, int(p_) % 4) if int(p_) == p_ else (g.tolist(), float(p_)))))
+                        okk = False
+                        break
+                if not okk:
+                    break
+                if L == 1:
+                    kk = og[0].tobytes()
+                    if kk in seen:
+                        viol.append(V('C19/torch/sample/not-uniform', item, 'torch sample(1) on %s: coin streams %s and %s give the same group element' % (desc, seen[kk], list(coins))))
+                        break
+                    seen[kk] = list(coins)
+        if (lib.t2n(st.gs).tobytes(), lib.t2n(st.ps).tobytes(), int(st.r)) != key0:
+            viol.append(V('C19/torch/state-changed', item, 'density_matrix / sample changed the torch state %s' % (desc,)))
+    return {'n': n, 'nt': nt, 'viol': viol}
+
+
 def legs(tier, for_replay=False):
     quick = tier == 'quick'
     seed = int(os.environ.get('VERIF_SEED', '0') or 0)
@@ -582,4 +682,8 @@ def legs(tier, for_replay=False):
                    bound=('N=2 global_rcc on %d of the 91 representatives x %s of the 16 sign strings%s, brickwall_rcc(2,1) on %d representatives x 1 sign string: '
                           'every rejection-free sampler coin string (mass 0.70) x every measurement coin string (capped: sign strings and base states)' % (
                               len(sub), '1' if quick else '2', '' if quick else ' (+4 more sign strings on 16 representatives)', nbw))))
+    sd = int(os.environ.get('VERIF_SEED', '0') or 0)
+    tit = [[sd, N, i] for N in (1, 2, 3) for i in range(len(_torch_pool19(N, sd)))]
+    out.append(Leg('torch_sample_density', fn_torch19, tit, chunk=4, exhaustive=False, supplementary=True,
+                   bound='torchclifford: 48 (N=1) + 91 (N=2) + %d (N=3) pool tableaux of every rank: density_matrix (term count, distinct strings, weights, dense sum = rho); sample(1), sample(2) under every scripted torch.randint stream: group membership with sign, uniformity for L=1; state unchanged' % len(_torch_pool19(3, sd))))
     return out
